@@ -60,7 +60,8 @@ type Link struct {
 
 // Op is one write of the history.
 type Op struct {
-	// K: create | update | updn (update by filter n==Doc) | delete
+	// K: create | create2 (two documents with the same link in one mutation) | update |
+	// updn (update by filter n==Doc) | delete
 	K   string `json:"k"`
 	Col int    `json:"col"`
 	// Doc selects the live document (modulo the live ones); for updn it is the n value filtered on.
@@ -196,9 +197,13 @@ func drawCase(t *rapid.T, avoid bool) Case {
 		// creation dominates while a collection is small, so that parents with several
 		// children and parents with none both exist; later relink/unlink/delete take over
 		switch {
-		case created[col] < 2 || kind < 8:
+		case created[col] < 2 || kind < 7:
 			op.K = "create"
 			created[col]++
+		case kind == 7:
+			// two documents in one mutation, both with the same link
+			op.K = "create2"
+			created[col] += 2
 		case kind < 14:
 			op.K = "update"
 		case kind < 16:
@@ -210,22 +215,22 @@ func drawCase(t *rapid.T, avoid bool) Case {
 		op.Doc = rapid.IntRange(0, 5).Draw(t, "doc")
 		op.API = rapid.IntRange(0, 3).Draw(t, "api") == 0
 		switch op.K {
-		case "create":
+		case "create", "create2":
 			op.SetN = true
 			op.NNull = rapid.IntRange(0, 9).Draw(t, "nnull") == 0
 			op.N = rapid.IntRange(0, nPool-1).Draw(t, "n")
-			op.Link = drawLink(t, 7)
+			op.Link = drawLink(t, 7, 0)
 		case "update":
 			op.SetN = rapid.IntRange(0, 2).Draw(t, "setn") == 0
 			op.NNull = rapid.IntRange(0, 9).Draw(t, "nnull") == 0
 			op.N = rapid.IntRange(0, nPool-1).Draw(t, "n")
-			op.Link = drawLink(t, 6)
+			op.Link = drawLink(t, 5, 2)
 			if tp.heldBy(col) < 0 {
 				op.SetN = true
 			}
 		case "updn":
 			op.Doc = rapid.IntRange(0, nPool-1).Draw(t, "nsel")
-			op.Link = drawLink(t, 8)
+			op.Link = drawLink(t, 7, 1)
 			if op.Link.Mode == 0 {
 				op.Link.Mode = 1
 			}
@@ -243,22 +248,24 @@ func drawCase(t *rapid.T, avoid bool) Case {
 	return c
 }
 
-func drawLink(t *rapid.T, linkWeight int) Link {
+// drawLink: linkWeight tenths point at an existing (or deleted) document, nullWeight tenths unlink,
+// one tenth names a never-created docID, the rest leaves the field alone.
+func drawLink(t *rapid.T, linkWeight, nullWeight int) Link {
 	m := rapid.IntRange(0, 9).Draw(t, "lmode")
 	switch {
 	case m < linkWeight:
 		return Link{Mode: 1, Tgt: rapid.IntRange(0, 4).Draw(t, "tgt")}
-	case m == 7:
-		return Link{Mode: 3}
-	case m == 8:
+	case m < linkWeight+nullWeight:
 		return Link{Mode: 2}
+	case m == linkWeight+nullWeight:
+		return Link{Mode: 3}
 	default:
 		return Link{Mode: 0}
 	}
 }
 
 func drawQuery(t *rapid.T, tp topoDef, c Case) Query {
-	kinds := []string{"hf", "hf", "tf", "tf", "tf", "hor", "tor", "horder", "horder", "torder", "agg", "agg", "sub", "tfsub", "cnthf", "cnttf"}
+	kinds := []string{"hf", "hf", "tf", "tf", "tf", "hor", "tor", "horder", "horder", "torder", "torder", "agg", "agg", "sub", "tfsub", "cnthf", "cnttf"}
 	if len(tp.Rels) > 1 {
 		kinds = append(kinds, "hopdown", "hopdown", "hopup", "hopup", "hoprender")
 	}
